@@ -46,7 +46,7 @@ def sha_tree():
     return h.hexdigest()[:24]
 
 
-def run_verus(path, extra=None, timeout=3600):
+def run_verus(path, extra=None, timeout=int(os.environ.get("VERIF_VERUS_CAP_S", "1200"))):
     flags = list(VERUS_FLAGS)
     extra = list(extra or [])
     if "--rlimit" in extra:     # an explicit limit replaces the default one (verus rejects a repeated option)
@@ -54,7 +54,25 @@ def run_verus(path, extra=None, timeout=3600):
         del flags[i:i + 2]
     cmd = ["verus", path] + flags + extra
     t0 = time.time()
-    p = subprocess.run(cmd, capture_output=True, text=True, timeout=timeout)
+    # wall-clock cap: on a changed tree the solver may search up to its resource limit once per further error of a function that
+    # already has a refuted obligation (tens of minutes each).  The run is then stopped and the diagnostics delivered so far are
+    # used: a refuted obligation is a verdict of the solver whether or not the rest of the file was examined.
+    pr = subprocess.Popen(cmd, stdout=subprocess.PIPE, stderr=subprocess.PIPE, text=True, start_new_session=True)
+    timed_out = False
+    try:
+        so, se = pr.communicate(timeout=timeout)
+    except subprocess.TimeoutExpired:
+        timed_out = True
+        try:
+            os.killpg(pr.pid, 9)
+        except Exception:
+            pr.kill()
+        so, se = pr.communicate()
+
+    class _P:
+        pass
+    p = _P()
+    p.stdout, p.stderr, p.returncode = so or "", se or "", pr.returncode
     wall = time.time() - t0
     diags = []
     for line in p.stderr.split("\n"):
@@ -70,8 +88,8 @@ def run_verus(path, extra=None, timeout=3600):
         out = json.loads(p.stdout)
     except Exception:
         out = None
-    return {"cmd": " ".join(cmd), "wall_s": wall, "rc": p.returncode, "diags": diags, "out": out,
-            "stderr_tail": p.stderr[-3000:] if out is None else ""}
+    return {"cmd": " ".join(cmd), "wall_s": wall, "rc": p.returncode, "diags": diags, "out": out, "timed_out": timed_out,
+            "stderr_tail": "\n".join(l for l in p.stderr.split("\n") if not l.startswith("{"))[-3000:]}
 
 
 def fn_breakdown(out):
@@ -260,9 +278,25 @@ def compute(tier):
         main = run_verus(os.path.join(cdir, "woven.rs"), ["--smt-option", "smt.random_seed=%d" % seed])
         failed, tool, lemma = map_diags(meta, main["diags"], "woven.rs")
         res["site_clause"] = map_diags.site_clause
-        if main["out"] is None:
-            tool.append("verus produced no result json: %s" % main["stderr_tail"][-800:])
+        if main["out"] is None and main.get("timed_out") and failed:
+            # stopped at the wall-clock cap with refuted obligations in hand: those are decided; what was not reached is not
+            # claimed either way (the evidence says so)
+            res["stopped_early"] = "verus stopped after %.0f s (cap) with %d refuted obligation(s); the rest of the file was not examined" % (
+                main["wall_s"], len(failed))
+        elif main["out"] is None:
+            tool.append("verus produced no result json%s: %s" % (" (stopped at the wall-clock cap)" if main.get("timed_out") else "",
+                                                                 main["stderr_tail"][-800:]))
+        vr = (main["out"] or {}).get("verification-results") or {}
+        if main["out"] is not None and not failed and not tool and not (vr.get("success") and vr.get("errors") == 0 and vr.get("verified", 0) > 0):
+            # e.g. the solver process died: Verus then reports `encountered-error` without any diagnostic and without per-function
+            # results - that is no verdict
+            tool.append("verus did not report success (%s) although no failed obligation was identified: %s"
+                        % (json.dumps(vr), main["stderr_tail"][-300:] or "no diagnostic"))
         fb = fn_breakdown(main["out"])
+        if main["out"] is not None and not failed and not tool:
+            missing = [f["path"] for f in meta["functions"] if f["path"] not in json.load(open(os.path.join(CONTRACTS, "units.json"))).get("external_body", {})
+                       and not f["path"].startswith("trait ") and ("woven::" + f["path"]) not in fb]
+            res["functions_without_solver_result"] = missing
         # functions verus reports as failed but without a mapped diagnostic -> safety obligation
         for f in meta["functions"]:
             nm = "woven::" + f["path"].replace("trait ", "")
@@ -612,6 +646,7 @@ def main():
         "not_decided_clauses": claim.get("not_decided", []),
         "unchecked_regions": claim.get("unchecked_regions", []),
         "results_from_cache": r.get("from_cache", False),
+        "stopped_early": r.get("stopped_early"),
         "source_sha256": meta["source_sha256"],
         "explanation": claim.get("explanation", ""),
     }
